@@ -485,8 +485,11 @@ int main(int argc, char** argv) {
         obs.kv((std::string("op_") + kindName(kd)).c_str(), r.kindCount[kd]);
     H.end(k, sig, nontrivial, obs.str());
     // (self-loop removal on graphs with reverse entries may also corrupt memory without an oracle noticing)
-    if ((!r.viols.empty() || (s.selfLoops && tracksReverse(fl.flags))) && H.only < 0)
+    if ((!r.viols.empty() || (s.selfLoops && tracksReverse(fl.flags))) && H.only < 0) {
+      // hand the failpoint counters of this process image to the driver (it sums every "done" event)
+      H.line(J().kv("ev", "done").kv("partial", true).kv("violations", H.nViolations).raw("points", point_stats_json()).str());
       continueInFreshProcess(argc, argv, k + 1);
+    }
   }
   return 0;
 }
